@@ -343,6 +343,10 @@ def r5(ctx: Ctx) -> None:
         m0 = mw[0]
         mpath = names_in(path_arg(m0))
         region = [n for n in g.nodes if n.id in reachable_from(g, m0.id, NORMAL) and n.id != m0.id and n.may_raise]
+        # (the best-effort cleanup itself may fail - that is what "best effort" means; it is not an exit to be cleaned up after)
+        from .common import same_value as _same
+        region = [n for n in region if not (ctx.eff.storage_op(n) == "delete_file" and (names_in(path_arg(n)) & mpath
+                                                                                       or _same(ctx, f, path_arg(n), n.id, path_arg(m0), m0.id)))]
         bad: List[str] = []
         n_exits = 0
         for n in region:
@@ -360,6 +364,7 @@ def r5(ctx: Ctx) -> None:
                 # walk the frames: first handler that catches c (fully or partially)
                 cleaned = False
                 live = True
+                caught_by: List[ast.ExceptHandler] = []
                 for fr in reversed(n.frames):
                     if fr.kind != "try" or fr.part != "body":
                         continue
@@ -382,8 +387,38 @@ def r5(ctx: Ctx) -> None:
                             # caught by a handler without cleanup: does it re-raise to an outer cleaning handler?
                             pass
                         if full:
+                            # caught without cleanup: a handler that only re-raises hands the error on to the `finally` of
+                            # the same try - a cleanup there under `not <flag>` runs when this handler leaves the flag alone
+                            caught_by.append(h)
                             live = False
                             break
+                    # flag form: `finally: if not keep: delete(path)` on the try the exception leaves through
+                    fin = getattr(fr.node, "finalbody", None)
+                    if not cleaned and fin:
+                        from .common import same_value as _sv
+                        fdels = [d for d in ctx.calls(f, storage="delete_file")
+                                 if any(x.kind == "try" and x.node is fr.node and x.part == "final" for x in d.frames)
+                                 and (names_in(path_arg(d)) & mpath or _sv(ctx, f, path_arg(d), d.id, path_arg(m0), m0.id))]
+                        flags_ = set()
+                        for d in fdels:
+                            for pol_, e_, _a in facts_at(ctx, f, d):
+                                if pol_ == "false" and isinstance(e_, ast.Name):
+                                    flags_.add(e_.id)
+                                if pol_ == "true" and isinstance(e_, ast.UnaryOp) and isinstance(e_.op, ast.Not) and isinstance(e_.operand, ast.Name):
+                                    flags_.add(e_.operand.id)
+                        if fdels and flags_:
+                            hs_here = [h_ for h_ in caught_by if h_ in fr.node.handlers]  # type: ignore[attr-defined]
+                            sets_in_h = [x for x in g.nodes if x.kind == "stmt" and isinstance(x.ast, ast.Assign)
+                                         and any(isinstance(tg, ast.Name) and tg.id in flags_ for tg in x.ast.targets)
+                                         and not (isinstance(x.ast.value, ast.Constant) and x.ast.value.value is False)
+                                         and any(in_handler(x, h_) for h_ in hs_here)]
+                            ndom = ctx.dom(f, NORMAL)
+                            set_before = [x for x in g.nodes if x.kind == "stmt" and isinstance(x.ast, ast.Assign)
+                                          and any(isinstance(tg, ast.Name) and tg.id in flags_ for tg in x.ast.targets)
+                                          and not (isinstance(x.ast.value, ast.Constant) and x.ast.value.value is False)
+                                          and x.id in ndom.get(n.id, set())]
+                            if not sets_in_h and not set_before:
+                                cleaned = True
                     if cleaned or not live:
                         break
                 if not cleaned:
